@@ -118,6 +118,27 @@ Definition sjis_name (bs : bytes) : bool := sjis_encoded bs && sjis_valid bs.
 Definition read_name (valid : bytes -> bool) (f : bytes) (p : N) : outcome bytes :=
   let s := raw_name f p in if valid s then Ok s else Err EEncoding.
 
+(* ---------------------------------------------------------------- the f32 payload size of ctpk.rs / bch.rs
+   `(get_pixel_format_bpp(fmt) * w as f32 * h as f32) as usize` with w, h < 2^16 (u16 fields): bpp is one of
+   4, 3, 2, 1, 0.5, 0, so `bpp * w` is exact in binary32; the second product is the exact real bpp*w*h rounded
+   to nearest-even to 24 significant bits; `as usize` truncates.  With q = 2*bpp*w*h (an integer, [bpp2 fmt * w * h]):
+   the request is rne24 q / 2.  (Assumption A-float is now only: Rust's f32 multiplication is IEEE-754 binary32
+   round-to-nearest-even and `as usize` truncates; the values stay far from the subnormal and overflow ranges.) *)
+Definition rne24 (q : N) : N :=
+  let s := N.log2 q - 23 in
+  if s =? 0 then q
+  else
+    let m := q / 2 ^ s in
+    let r := q mod 2 ^ s in
+    let half := 2 ^ (s - 1) in
+    (if (half <? r) || ((r =? half) && N.odd m) then m + 1 else m) * 2 ^ s.
+Definition payload_size32 (format width height : N) : N := rne24 (bpp2 format * width * height) / 2.
+(* the request equals the true payload size *)
+Definition f32_exact (t : tex) : Prop :=
+  payload_size32 (t_fmt t) (t_w t) (t_h t) = payload_size (t_fmt t) (t_w t) (t_h t).
+Definition f32_exactb (t : tex) : bool :=
+  payload_size32 (t_fmt t) (t_w t) (t_h t) =? payload_size (t_fmt t) (t_w t) (t_h t).
+
 (* ---------------------------------------------------------------- decoding of one stored texture *)
 (* 3DS containers: texture_decoder::decode_pixel_data on the texture's own payload *)
 Definition decode_tex (m : mode) (t : tex) : outcome texture :=
